@@ -121,12 +121,27 @@ def run_typeuses(ctx, rep, rid="R-C02-typeuses"):
             arm_of[str(l)] = succ
     entries = set(arm_of.values())
     look_bbs = set()
+
+    def consults(nm, depth=4, seen=None):
+        """an analyzer helper that (through other helpers) consults the type table"""
+        seen = seen if seen is not None else set()
+        if nm in seen or depth <= 0:
+            return False
+        seen.add(nm)
+        for cb in ctx.prog.get(nm) or []:
+            for c2 in cb.calls():
+                n2 = c2.callee or ""
+                if "symbol_table" in n2 and n2.endswith("::find"):
+                    return True
+                if n2.startswith("ironplc_analyzer::") and consults(n2, depth - 1, seen):
+                    return True
+        return False
     for c in b.calls():
         nm = c.callee or ""
         if nm.endswith("SymbolTable::find") or nm.endswith("::find") and "symbol_table" in nm:
             look_bbs.add(c.bb)
-        elif nm.startswith("ironplc_analyzer::") and any(("symbol_table" in (c2.callee or "") and (c2.callee or "").endswith("::find")) for cb in ctx.prog.get(nm) or [] for c2 in cb.calls()):
-            look_bbs.add(c.bb)          # a helper that consults the table (after ruling out the elementary names)
+        elif nm.startswith("ironplc_analyzer::") and consults(nm):
+            look_bbs.add(c.bb)          # a helper that consults the table (after ruling out the elementary names), however many helpers deep
     adt = ctx.facts.adts["ironplc_dsl::common::InitialValueAssignmentKind"]
     where = "%s:%d" % (b.f["file"], b.f["line"])
     for v in adt["variants"]:
@@ -217,6 +232,7 @@ def run(ctx, rep):
     run_enumunique(ctx, rep)
     run_taskrefs(ctx, rep)
     run_typeuses(ctx, rep)
+    run_typefields(ctx, rep)
     run_foldall(ctx, rep)
 
 
@@ -265,3 +281,118 @@ def run_foldall(ctx, rep, rid="R-C02-foldall"):
     if not n:
         r.count_override = 1
         r.note("no fold override of the resolver rebuilds its own node today (they use recurse_fold); positive example: seeded/C02-N")
+
+
+# every field of the DSL that holds a type name (ironplc_dsl::common::Type): what it is, and who must look it up
+TYPE_FIELDS = {
+    # (owner, variant, field): (role, reason / checker)
+    ("ArrayDeclaration", "ArrayDeclaration", "type_name"): ("declares", ""),
+    ("EnumerationDeclaration", "EnumerationDeclaration", "type_name"): ("declares", ""),
+    ("LateBoundDeclaration", "LateBoundDeclaration", "data_type_name"): ("declares", ""),
+    ("SimpleDeclaration", "SimpleDeclaration", "type_name"): ("declares", ""),
+    ("StringDeclaration", "StringDeclaration", "type_name"): ("declares", ""),
+    ("StructureDeclaration", "StructureDeclaration", "type_name"): ("declares", ""),
+    ("SubrangeDeclaration", "SubrangeDeclaration", "type_name"): ("declares", ""),
+    ("ArraySpecificationKind", "Type", "0"): ("use", ""),
+    ("ArraySubranges", "ArraySubranges", "type_name"): ("use", ""),
+    ("FunctionBlockInitialValueAssignment", "FunctionBlockInitialValueAssignment", "type_name"): ("use", ""),
+    ("FunctionDeclaration", "FunctionDeclaration", "return_type"): ("use", ""),
+    ("InitialValueAssignmentKind", "LateResolvedType", "0"): ("use", ""),
+    ("SimpleInitializer", "SimpleInitializer", "type_name"): ("use", ""),
+    # as a TYPE declaration the name is declared, as the initializer of a variable it is used: the use is what must be looked up; the
+    # declaration is excused by name below (DECLARING_CONTEXT)
+    ("StructureInitializationDeclaration", "StructureInitializationDeclaration", "type_name"): ("use", ""),
+    ("LateBoundDeclaration", "LateBoundDeclaration", "base_type_name"): ("other", "resolved (or reported as not implemented, P9999) by xform_resolve_late_bound_data_decl"),
+    ("EnumeratedInitialValueAssignment", "EnumeratedInitialValueAssignment", "type_name"): ("other", "P0012 by rule_use_declared_enumerated_value"),
+    ("EnumeratedSpecificationKind", "TypeName", "0"): ("other", "P0012 by rule_use_declared_enumerated_value"),
+    ("EnumeratedValue", "EnumeratedValue", "type_name"): ("other", "the qualifier of a value: P0012/P0014 by rule_use_declared_enumerated_value"),
+    ("SubrangeSpecificationKind", "Type", "0"): ("other", "an alias of a subrange type: resolved by xform_resolve_late_bound_data_decl"),
+    ("ProgramAccessDecl", "ProgramAccessDecl", "type_name"): ("other", "VAR_ACCESS: not analysed (the access path is not resolved either)"),
+    ("AccessDeclaration", "AccessDeclaration", "type_name"): ("other", "not part of a Library (dropped by the parser, R-C01-drain)"),
+    ("FunctionBlockInit", "FunctionBlockInit", "type_name"): ("other", "VAR_CONFIG: instance paths are not resolved, so neither is the type at their end"),
+    ("VariableSpecificationKind", "Simple", "0"): ("other", "converted by the parser before the library is built"),
+    ("VariableSpecificationKind", "Ambiguous", "0"): ("other", "converted by the parser before the library is built"),
+}
+# containers in which a `use` field's owner is itself the thing being declared
+DECLARING_CONTEXT = {("StructureInitializationDeclaration", "DataTypeDeclarationKind")}
+
+
+def run_typefields(ctx, rep, rid="R-C02-typefields"):
+    """"Every used type is declared" for *every place a type can be named*, not only variable declarations.  Each field of the DSL that holds
+    a type name is classified (declares / use / looked after elsewhere, frozen table with reasons).  For every `use` field: on every way the
+    type-containment graph leads from Library to the field's owner, there is a fold override of the type resolver that reads this very field
+    - otherwise the owner is reached in some context the resolver does not look at (the element type of an array *type declaration*, the
+    return type of a function) and an undeclared type is accepted there."""
+    from vlib.traversal import Traversal
+    from rules.c10 import field_reads
+    r = rep.rule(rid, "every field of the DSL that names a type is classified, and every `use` is read by an override of the type resolver on every containment path "
+                      "from Library to its owner (P0022 wherever a type can be named)", floor=20, floor_what="type-naming fields of the DSL")
+    T = Traversal(ctx, "fold")
+    TY = "ironplc_dsl::common::Type"
+    ovs = {}
+    for b in ctx.prog.bodies.values():
+        im = b.f.get("impl") or {}
+        if b.f["crate"] == "ironplc_analyzer" and "xform_resolve_late_bound_type_initializer" in b.f["file"] and im.get("trait_def") == "ironplc_dsl::fold::Fold" \
+                and b.f["name"].startswith("fold_") and "::test" not in norm(b.id):
+            ovs[b.f["name"]] = b
+    if not ovs:
+        rep.error(rid, "the type resolver has no fold override")
+        return
+    cont = T.containment()
+    short = {a: a.split("::")[-1] for a in ctx.facts.adts}
+    # what each override reads
+    reads = {}
+    for m, b in ovs.items():
+        ty = T.method_type.get(m)
+        for a in ctx.facts.adts:
+            if not a.startswith("ironplc_dsl::"):
+                continue
+            for v, f in field_reads(ctx, b, a):
+                reads.setdefault((short[a], v, f), set()).add((m, ty))
+    for aid, a in sorted(ctx.facts.adts.items()):
+        if a["crate"] != "ironplc_dsl":
+            continue
+        for v in a["variants"]:
+            for fl in v["fields"]:
+                if TY not in fl["ty"] or "TypeName" in fl["ty"]:
+                    continue
+                key = (short[aid], v["name"], fl["name"])
+                inst = "%s::%s.%s" % key if a["kind"] == "enum" else "%s.%s" % (key[0], key[2])
+                where = "%s:%d" % (a["file"], a["line"])
+                row = TYPE_FIELDS.get(key)
+                if row is None:
+                    r.finding(inst + "|unclassified", where, "a new field that names a type: does it declare the name or use it, and who looks it up? (add it to the table)")
+                    continue
+                role, why = row
+                if role != "use":
+                    r.justified(inst, role + (": " + why if why else ""), where)
+                    continue
+                covering = {ty for m, ty in reads.get(key, ())}
+                if aid in covering:
+                    r.ok(inst, where, "read by the override for its own node")
+                    continue
+                # a containment path from Library to the owner that meets no covering override
+                start = "ironplc_dsl::common::Library"
+                parent, st, hit = {start: None}, [start], None
+                while st and hit is None:
+                    n = st.pop()
+                    for c in sorted(cont.get(n, ())):
+                        if c in parent or c in covering:
+                            continue
+                        if (short.get(c), short.get(n)) in DECLARING_CONTEXT:
+                            continue
+                        parent[c] = n
+                        if c == aid:
+                            hit = c
+                            break
+                        st.append(c)
+                if hit is None:
+                    r.ok(inst, where, "every way from Library passes an override that reads it: " + ", ".join(sorted(m for m, _ in reads.get(key, ()))))
+                else:
+                    path = []
+                    n = hit
+                    while n is not None:
+                        path.append(short[n])
+                        n = parent[n]
+                    r.finding(inst + "|not-looked-up via " + path[1], where, "a %s reached through %s is read by no override of the type resolver: an undeclared type named there is accepted (no P0022)"
+                              % (key[0], " <- ".join(path)))
